@@ -938,12 +938,19 @@ func dscCase(c *mc.Ctx, item int, thorough bool) mc.Verdict {
 	}
 	comment(dscKeys[ki], vi, ci, true)
 	// optionally a second comment directly after
-	second := c.Choose(3)
+	second := c.Choose(5)
 	switch second {
 	case 1:
 		comment("EOF", len(dscValues), 0, false)
 	case 2:
 		comment("Next", 1, 1, false)
+	case 3:
+		// a structured comment ended by a form feed (PLRM 3.2.2), code on the same line
+		text.WriteString("%%Last: ended by a form feed\f7 pop" + eol1)
+		want = append(want, pstoken.DSC{Key: "Last", Value: "ended by a form feed"})
+	case 4:
+		text.WriteString("%%Bare\f 7 pop %%NotDSC: mid-line\f8 pop" + eol1)
+		want = append(want, pstoken.DSC{Key: "Bare", Value: ""})
 	}
 	var post string
 	switch pos {
@@ -1429,7 +1436,7 @@ func main() {
 
 			nd := len(dscPositions) * len(dscKeys) * (len(dscValues) + 2) * len(dscColons)
 			fams = append(fams, mc.Family{Name: "dsc", Items: nd, Body: dscBody(thorough), Budget: budget,
-				Rule: "item = (position of 6: first line, after a code line, after a plain comment, after a blank line, between the tokens of a procedure, in a second Execute) x key of 2 x value of 4 (or no colon, or empty) x colon/blank form of 4; choices: line end LF/CR/CRLF of the comment line (thorough: independently of the preceding line), none / one `%%+` continuation line (3 texts x 3 blank forms x 3 line ends) / two continuation lines (2 blank forms x 3 x 3 line ends), an optional second comment (2 kinds), following code / plain comment / end of file with or without final line end; observed in Interpreter.DSC in order; non-trivial = all"})
+				Rule: "item = (position of 6: first line, after a code line, after a plain comment, after a blank line, between the tokens of a procedure, in a second Execute) x key of 2 x value of 4 (or no colon, or empty) x colon/blank form of 4; choices: line end LF/CR/CRLF of the comment line (thorough: independently of the preceding line), none / one `%%+` continuation line (3 texts x 3 blank forms x 3 line ends) / two continuation lines (2 blank forms x 3 x 3 line ends), an optional second comment (4 kinds, two of them ended by a form feed with code following on the same line), following code / plain comment / end of file with or without final line end; observed in Interpreter.DSC in order; non-trivial = all"})
 
 			fams = append(fams, boundaryFamily(budget))
 			fams = append(fams, mixedLinesFamily(budget))
